@@ -137,18 +137,49 @@ def run_panel(h, tree, expect):
         d = np.asarray(d, dtype=float)
         if ind.shape != (len(PANEL_Q), PANEL_K):
             return ("shape", tuple(ind.shape))
-        return ("ok", tuple(tuple(int(x) for x in row) for row in ind), tuple(tuple(round(float(x), 9) for x in row) for row in d))
+        return ("ok", tuple(tuple(int(x) for x in row) for row in ind), tuple(tuple(float(x) for x in row) for row in d))
     except Exception as e:  # noqa
         return ("error", type(e).__name__)
+
+
+def combo_ok(tree, triple):
+    return (tree, triple[1], triple[2]) in EXACT + FLOAT_ALL
 
 
 def attr_of(h):
     return [str(h.coordinates), str(h.coordinate_system), str(h.distance_metric)]
 
 
+_G0 = None
+
+
+def hist_grid():
+    """A fresh Grid per history.  The element coordinates (both systems, all three kinds) are
+    derived once per process by the library itself on a first grid; a fresh grid is then made
+    with the public constructor Grid(dataset, source_grid_spec) from a deep copy of a dataset
+    holding those values under the library's own variable and dimension names (~0.3 ms
+    instead of ~12 ms per history)."""
+    global _G0
+    import xarray as xr
+
+    from harness import ux as hux
+
+    ux = hux.import_ux()
+    if _G0 is None:
+        g0 = X.build_grid(hist_entry())
+        ds = xr.Dataset()
+        for p in ("node", "face", "edge"):
+            for c in ("lon", "lat", "x", "y", "z"):
+                ds["%s_%s" % (p, c)] = xr.DataArray(np.array(getattr(g0, "%s_%s" % (p, c)).values, dtype=float), dims=["n_" + p])
+        ds["face_node_connectivity"] = xr.DataArray(np.array(g0.face_node_connectivity.values), dims=["n_face", "n_max_face_nodes"], attrs=dict(g0.face_node_connectivity.attrs))
+        ds["edge_node_connectivity"] = xr.DataArray(np.array(g0.edge_node_connectivity.values), dims=["n_edge", "two"])
+        _G0 = ds
+    return ux.Grid(_G0.copy(deep=True), source_grid_spec="User Defined Topology")
+
+
 def replay_history(item):
     hid, hist = item
-    g = X.build_grid(hist_entry())
+    g = hist_grid()
     handles = []
     trees = []
     steps = []
@@ -174,9 +205,11 @@ def replay_history(item):
                     rec["skipped"] = True  # the model's handle does not exist here (drift)
                     steps.append(rec)
                     continue
+                before = attr_of(handles[hidx])
                 handles[hidx].coordinates = act[2]
                 rec["ret"] = act[1]
-                rec["want"] = [act[2]] + list(st["pred"][hidx][1:])
+                # the setter switches the element kind only
+                rec["want"] = [act[2], before[1], before[2]]
         except Exception as e:  # noqa
             rec["error"] = "%s: %s" % (type(e).__name__, str(e)[:160])
             steps.append(rec)
@@ -185,7 +218,7 @@ def replay_history(item):
         for i, h in enumerate(handles):
             if i == rec["ret"] - 1:
                 expect = rec["want"]
-            elif i < len(st["pred"]):
+            elif i < len(st["pred"]) and combo_ok(trees[i], st["pred"][i]):
                 expect = st["pred"][i]
             else:
                 expect = attr_of(h)
@@ -199,7 +232,7 @@ def behaviour_verdicts(ctx, behs):
     """behs: set of (tree, kind, system, metric, beh). Returns {key: set(failed clause names)}.
     Exact orders are judged by TLC; planar / Manhattan orders by the float oracle."""
     e = hist_entry()
-    g = X.build_grid(e)
+    g = hist_grid()
     out = {}
     S = {}
     for kind in X.KINDS:
@@ -215,6 +248,9 @@ def behaviour_verdicts(ctx, behs):
         tree, kind, system, metric, beh = key
         if beh[0] != "ok":
             out[key] = {"Raises" if beh[0] == "error" else "KnnShape"}
+            continue
+        if not combo_ok(tree, (kind, system, metric)):
+            out[key] = {"Unjudgeable"}
             continue
         out[key] = set()
         _, inds, dists = beh
@@ -261,12 +297,11 @@ def histories(ctx, rng):
         hs += gen_histories(ctx, ["ball", "kd"], 6, simulate="num=3000", depth=7, seed=ctx.seed + 11)
         ctx.exhaustive = True
     else:
-        hs += gen_histories(ctx, ["ball"], 2)
-        hs += gen_histories(ctx, ["kd"], 2)
-        hs += gen_histories(ctx, ["ball", "kd"], 2)
-        h3 = gen_histories(ctx, ["ball"], 3, recs="FALSE") + gen_histories(ctx, ["kd"], 3, recs="FALSE")
-        hs += h3
-        hs += gen_histories(ctx, ["ball", "kd"], 5, simulate="num=400", depth=6, seed=ctx.seed + 11)
+        hs += gen_histories(ctx, ["ball", "kd"], 2)  # every history of length <= 2, both trees, full alphabet
+        hs += gen_histories(ctx, ["ball"], 3, recs="FALSE")
+        k3 = gen_histories(ctx, ["kd"], 3, recs="FALSE")
+        hs += rng.sample(k3, min(len(k3), 1200))
+        hs += gen_histories(ctx, ["ball", "kd"], 5, simulate="num=300", depth=6, seed=ctx.seed + 11)
     # de-duplicate (simulation can repeat; the mixed length-2 run contains the single-tree ones)
     seen = set()
     uniq = []
@@ -276,7 +311,11 @@ def histories(ctx, rng):
             seen.add(key)
             uniq.append(h)
     items = list(enumerate(uniq))
+    import time as _t
+
+    _t0 = _t.time()
     res = pmap(replay_history, items)
+    ctx.note("history_replay_wall_s", round(_t.time() - _t0, 1))
     behs = set()
     for r in res:
         for st in r["steps"]:
@@ -315,10 +354,14 @@ def histories(ctx, rng):
                         ctx.violation(key, "HandBackAttributes", detail={"requested": st["want"], "handed_back": o["attr"]}, replay=rp, sig=sig)
                     if bad_beh:
                         ctx.violation(key, "HandBackBehaviour", detail={"requested": st["want"], "handed_back_attr": o["attr"], "failed": sorted(bad_beh), "panel": o["beh"][:2]}, replay=rp, sig=dict(sig, failed="+".join(sorted(bad_beh))))
+                    if prev is not None and prev != list(st["want"]) and st["act"][0] == "get":
+                        alias_changes += 1
                     promised[i] = list(st["want"])
                 else:
                     if o["attr"] != o["expect"] or bad_beh:
                         drift += 1
+                        if drift <= 3:
+                            print("MODEL-DRIFT example:", key, "handle", i + 1, "observed", o["attr"], "predicted", o["expect"], sorted(bad_beh))
                     if i in promised and o["attr"] != promised[i]:
                         alias_changes += 1
                         promised[i] = list(o["attr"])
@@ -591,7 +634,7 @@ def choose_grids(rng, thorough):
 def queries(ctx, rng):
     thorough = ctx.tier == "thorough"
     grids = choose_grids(rng, thorough)
-    nq = 28 if thorough else 14
+    nq = 28 if thorough else 10
     K = 3 if thorough else 2
     ga = pmap(grid_plan, grids)
     groups = []
@@ -691,6 +734,7 @@ def run(ctx):
     )
     laws(ctx)
     tree_model(ctx)
+    X.warm()
     histories(ctx, rng)
     queries(ctx, rng)
     ctx.assumptions += [
